@@ -1,1 +1,249 @@
-(* C09 - to be filled *)
+(* C09 - Requested alignments are honoured in the linked image.
+   Only statements, each closed by [exact]; see Proofs/C09.v.  Link-level statements are about LdSem's
+   execution of the statement lists the writer model produces, for every environment of previous-pass
+   values (env, senv), object symbols (ext), pass kind (final) and starting state. *)
+From Slinky Require Import Model.Types Model.Runtime Model.Style Model.Script Model.Writer Model.LdSem.
+From Slinky Require Import Spec.C09 Proofs.LdLemmas Proofs.C09.
+From Coq Require Import ZArith.
+Local Open Scope Z_scope.
+
+(* ---------- section groups inside an output section (multi-segment scripts) ---------- *)
+
+(* the start of a group: the START symbol is defined as vma + offset, the offset only moves forward and
+   is a multiple of the per-section alignment and - when the two are compatible - of section_start_align;
+   offsets are measured from the start of the enclosing output section (the segment part) *)
+Theorem C09_group_start : forall env senv ext final vma sub outsec rt sty cfg seg section ss,
+  section_syms cfg = true ->
+  let ss' := fold_left (exec_sec_stmt env senv ext final vma sub outsec)
+                       (section_symbol_start rt sty cfg seg section) ss in
+  lookup (segment_section_start sty (sg_name seg) section) (l_syms (s_st ss')) = Some (vma + s_off ss') /\
+  s_off ss <= s_off ss' /\
+  (forall b, lookup section (sections_start_alignment seg) = Some b -> (0 < b)%N -> (Z.of_N b | s_off ss')) /\
+  (forall a, section_start_align seg = Some a -> (0 < a)%N ->
+             (forall b, lookup section (sections_start_alignment seg) = Some b ->
+                        compatible (Z.of_N a) (Z.of_N b)) ->
+             (Z.of_N a | s_off ss')).
+Proof. exact group_start_aligned. Qed.
+
+(* the end of a group, and SIZE = END - START *)
+Theorem C09_group_end : forall env senv ext final vma sub outsec sty cfg seg section ss,
+  section_syms cfg = true ->
+  let ss' := fold_left (exec_sec_stmt env senv ext final vma sub outsec)
+                       (section_symbol_end sty cfg seg section) ss in
+  lookup (segment_section_end sty (sg_name seg) section) (l_syms (s_st ss')) = Some (vma + s_off ss') /\
+  s_off ss <= s_off ss' /\
+  (forall b, lookup section (sections_end_alignment seg) = Some b -> (0 < b)%N -> (Z.of_N b | s_off ss')) /\
+  (forall a, section_end_align seg = Some a -> (0 < a)%N ->
+             (forall b, lookup section (sections_end_alignment seg) = Some b ->
+                        compatible (Z.of_N a) (Z.of_N b)) ->
+             (Z.of_N a | s_off ss')) /\
+  (forall s, sym_lookup (segment_section_start sty (sg_name seg) section) (s_st ss) env ext = Some s ->
+             lookup (segment_section_size sty (sg_name seg) section) (l_syms (s_st ss')) =
+             Some (vma + s_off ss' - s)).
+Proof. exact group_end_aligned. Qed.
+
+(* powers of two are always compatible *)
+Theorem C09_pow2_compatible : forall n m, compatible (2 ^ Z.of_nat n) (2 ^ Z.of_nat m).
+Proof. exact pow2_divides_or. Qed.
+
+Example C09_group_start_example :
+  let ss' := fold_left (exec_sec_stmt [] [] [] true 1000 (Some 4) ".boot")
+                       (section_symbol_start (Runtime [] false) Splat cfg_normal c09_segment ".data")
+                       (SState 5 false c09_state) in
+  section_syms cfg_normal = true /\
+  section_start_align c09_segment = Some 16%N /\ lookup ".data" (sections_start_alignment c09_segment) = Some 8%N /\
+  compatible (Z.of_N 16) (Z.of_N 8) /\
+  s_off ss' = 16 /\ lookup "boot_DATA_START" (l_syms (s_st ss')) = Some 1016.
+Proof. vm_compute. repeat split; try reflexivity. right. exists 2. reflexivity. Qed.
+
+Example C09_group_end_example :
+  let ss' := fold_left (exec_sec_stmt [] [] [] true 1000 (Some 4) ".boot")
+                       (section_symbol_end Splat cfg_normal c09_segment ".data")
+                       (SState 37 false (set_sym "boot_DATA_START" 1016 false c09_state)) in
+  s_off ss' = 64 /\ lookup "boot_DATA_END" (l_syms (s_st ss')) = Some 1064 /\
+  lookup "boot_DATA_SIZE" (l_syms (s_st ss')) = Some 48.
+Proof. vm_compute. repeat split; reflexivity. Qed.
+
+(* ---------- single-segment mode: the same statements at the top level, where "." is absolute ---------- *)
+
+Theorem C09_single_mode_absolute : forall env senv ext final rt sty cfg seg section st,
+  section_syms cfg = true ->
+  let st' := fold_left (exec_top_stmt env senv ext final) (section_symbol_start rt sty cfg seg section) st in
+  lookup (segment_section_start sty (sg_name seg) section) (l_syms st') = Some (l_dot st') /\
+  l_dot st <= l_dot st' /\
+  (forall b, lookup section (sections_start_alignment seg) = Some b -> (0 < b)%N -> (Z.of_N b | l_dot st')) /\
+  (forall a, section_start_align seg = Some a -> (0 < a)%N ->
+             (forall b, lookup section (sections_start_alignment seg) = Some b ->
+                        compatible (Z.of_N a) (Z.of_N b)) ->
+             (Z.of_N a | l_dot st')).
+Proof. exact top_group_start_aligned. Qed.
+
+Theorem C09_single_mode_absolute_end : forall env senv ext final sty cfg seg section st s,
+  section_syms cfg = true ->
+  sym_lookup (segment_section_start sty (sg_name seg) section) st env ext = Some s ->
+  let st' := fold_left (exec_top_stmt env senv ext final) (section_symbol_end sty cfg seg section) st in
+  lookup (segment_section_end sty (sg_name seg) section) (l_syms st') = Some (l_dot st') /\
+  lookup (segment_section_size sty (sg_name seg) section) (l_syms st') = Some (l_dot st' - s) /\
+  l_dot st <= l_dot st' /\
+  (forall b, lookup section (sections_end_alignment seg) = Some b -> (0 < b)%N -> (Z.of_N b | l_dot st')) /\
+  (forall a, section_end_align seg = Some a -> (0 < a)%N ->
+             (forall b, lookup section (sections_end_alignment seg) = Some b ->
+                        compatible (Z.of_N a) (Z.of_N b)) ->
+             (Z.of_N a | l_dot st')).
+Proof. exact top_group_end_aligned. Qed.
+
+Example C09_single_mode_example :
+  let st' := fold_left (exec_top_stmt [] [] [] true)
+                       (section_symbol_start (Runtime [] false) Makerom cfg_normal c09_segment ".data") c09_state in
+  l_dot st' = 112 /\ lookup "_bootSegmentDataStart" (l_syms st') = Some 112.
+Proof. vm_compute. split; reflexivity. Qed.
+
+(* ---------- the segment: ROM start / end, VRAM end ---------- *)
+
+(* segment_start_align: the ROM position and "." are both aligned, X_ROM_START is the aligned position *)
+Theorem C09_segment_rom_vram_start : forall env senv ext final sty name a st v,
+  (0 < a)%N ->
+  sym_lookup "__romPos" st env ext = Some v ->
+  let st' := fold_left (exec_top_stmt env senv ext final)
+                       (segment_align_stmts (Some a) ++
+                        [linker_symbol (segment_rom_start sty name) (ESym "__romPos")]) st in
+  lookup (segment_rom_start sty name) (l_syms st') = Some (align_up v (Z.of_N a)) /\
+  lookup "__romPos" (l_syms st') = Some (align_up v (Z.of_N a)) /\
+  (Z.of_N a | align_up v (Z.of_N a)) /\
+  l_dot st' = align_up (l_dot st) (Z.of_N a) /\ (Z.of_N a | l_dot st').
+Proof. exact segment_start_aligned. Qed.
+
+(* segment_end_align: X_VRAM_END and X_ROM_END are multiples of it, sizes are end - start *)
+Theorem C09_segment_rom_vram_end : forall env senv ext final sty name a st v sv sr,
+  sym_lookup "__romPos" st env ext = Some v ->
+  sym_lookup (segment_vram_start sty name) st env ext = Some sv ->
+  sym_lookup (segment_rom_start sty name) st env ext = Some sr ->
+  let st' := fold_left (exec_top_stmt env senv ext final)
+                       (segment_align_stmts a ++
+                        sym_end_size (segment_vram_start sty name) (segment_vram_end sty name)
+                                     (segment_vram_size sty name) EDot ++
+                        sym_end_size (segment_rom_start sty name) (segment_rom_end sty name)
+                                     (segment_rom_size sty name) (ESym "__romPos")) st in
+  exists vend rend,
+    lookup (segment_vram_end sty name) (l_syms st') = Some vend /\
+    lookup (segment_rom_end sty name) (l_syms st') = Some rend /\
+    lookup (segment_vram_size sty name) (l_syms st') = Some (vend - sv) /\
+    lookup (segment_rom_size sty name) (l_syms st') = Some (rend - sr) /\
+    l_dot st <= vend /\ v <= rend /\ l_dot st' = vend /\
+    (forall n, a = Some n -> (0 < n)%N -> (Z.of_N n | vend) /\ (Z.of_N n | rend)) /\
+    (a = None -> vend = l_dot st /\ rend = v).
+Proof. exact segment_end_aligned. Qed.
+
+Example C09_segment_example :
+  let st' := fold_left (exec_top_stmt [] [] [] true)
+                       (segment_align_stmts (segment_start_align c09_segment) ++
+                        [linker_symbol (segment_rom_start Splat "boot") (ESym "__romPos")]) c09_state in
+  sym_lookup "__romPos" c09_state [] [] = Some 7 /\
+  lookup "boot_ROM_START" (l_syms st') = Some 4096 /\ l_dot st' = 4096.
+Proof. vm_compute. repeat split; reflexivity. Qed.
+
+(* ---------- default-placed VRAM start ---------- *)
+
+(* an output section without address expression starts at the location counter aligned to A, the
+   strictest alignment among what it receives; a location counter already aligned to sa stays a
+   multiple of sa when sa and A are compatible *)
+Theorem C09_default_vram : forall env senv ext final name at_ noload sub body st sa,
+  let A := body_align (option_map Z.of_N sub) body (l_remaining st) 1 in
+  let st' := exec_outsec env senv ext final name None at_ noload sub body st in
+  exists o, l_secs st' = (l_secs st ++ [o])%list /\ os_name o = name /\ os_vma o = align_up (l_dot st) A /\
+            1 <= A /\ l_dot st <= os_vma o /\
+            (0 < sa -> (sa | l_dot st) -> compatible sa A -> (sa | os_vma o)).
+Proof. exact default_vram. Qed.
+
+(* ---------- SUBALIGN ---------- *)
+
+(* inside a body executed with SUBALIGN(s): everything appended to l_placed sits at a multiple of s *)
+Theorem C09_subalign_body : forall env ext senv final vma s outsec,
+  0 < s -> forall body ss,
+  exists new,
+    l_placed (s_st (fold_left (exec_sec_stmt env senv ext final vma (Some s) outsec) body ss)) =
+    (l_placed (s_st ss) ++ new)%list /\
+    Forall (fun p => (s | pl_addr p)) new.
+Proof. exact sub_fold. Qed.
+
+Theorem C09_subalign : forall env senv ext final name addr at_ noload s body st,
+  (0 < s)%N ->
+  exists new,
+    l_placed (exec_outsec env senv ext final name addr at_ noload (Some s) body st) = (l_placed st ++ new)%list /\
+    Forall (fun p => (Z.of_N s | pl_addr p)) new.
+Proof. exact subalign_outsec. Qed.
+
+Example C09_subalign_example :
+  map pl_addr (l_placed (exec_outsec [] [] [] true ".boot" None None false (Some 16%N)
+                                     [SInput false "a.o" None ".text" true; SInput false "b.o" None ".text" true]
+                                     c09_state)) = [112; 128].
+Proof. vm_compute. reflexivity. Qed.
+
+(* ---------- no spurious alignment (script level) ---------- *)
+
+Theorem C09_no_spurious_opt : opt_align None = [] /\ segment_align_stmts None = [].
+Proof. exact no_spurious_opt. Qed.
+
+(* the ALIGN statements around a group are exactly the requested ones, in order *)
+Theorem C09_no_spurious_group : forall rt sty cfg seg section,
+  aligns_of (section_symbol_start rt sty cfg seg section) =
+  (if section_syms cfg
+   then opt_align (section_start_align seg) ++ opt_align (lookup section (sections_start_alignment seg))
+   else [])%list /\
+  aligns_of (section_symbol_end sty cfg seg section) =
+  (if section_syms cfg
+   then opt_align (section_end_align seg) ++ opt_align (lookup section (sections_end_alignment seg))
+   else [])%list.
+Proof. exact no_spurious_group. Qed.
+
+Theorem C09_no_spurious_group_none : forall rt sty cfg seg section,
+  (section_start_align seg = None -> lookup section (sections_start_alignment seg) = None ->
+   aligns_of (section_symbol_start rt sty cfg seg section) = []) /\
+  (section_end_align seg = None -> lookup section (sections_end_alignment seg) = None ->
+   aligns_of (section_symbol_end sty cfg seg section) = []).
+Proof. exact no_spurious_group_none. Qed.
+
+(* the statements of the files of a group contain no ALIGN *)
+Theorem C09_no_spurious_files : forall rt sty cfg seg sections base section ws s ws',
+  emit_section rt sty cfg seg sections base section ws = Ok (s, ws') -> aligns_of s = [].
+Proof. exact emit_section_no_align. Qed.
+
+(* one part of a segment: a single output section, carrying exactly the segment's subalign (None: no
+   SUBALIGN), and no ALIGN beside it *)
+Theorem C09_no_spurious_part : forall rt st cfg seg sections noload ws s ws',
+  write_segment rt st cfg seg sections noload ws = Ok (s, ws') ->
+  aligns_of s = [] /\ outsec_subaligns s = [subalign seg].
+Proof. exact write_segment_aligns. Qed.
+
+(* an emitted segment: the top-level ALIGN statements are exactly those of segment_start_align and
+   segment_end_align (none when null / absent) *)
+Theorem C09_no_spurious_segment : forall rt st cfg classes seg ws s ws',
+  add_segment rt st cfg classes seg ws = Ok (s, ws') ->
+  should_emit rt (sg_conds seg) = true ->
+  aligns_of s = (segment_align_stmts (segment_start_align seg) ++ segment_align_stmts (segment_end_align seg))%list /\
+  outsec_subaligns s = [subalign seg; subalign seg].
+Proof. exact add_segment_aligns. Qed.
+
+Example C09_no_spurious_example :
+  exists s ws', add_segment (Runtime [] false) (Settings "" Splat None None None None "char" true [] [] [] false
+                                                         false None None [] [] None None None None None [] [] true None [])
+                            cfg_normal [] c09_segment ws0 = Ok (s, ws') /\
+                aligns_of s = [SAlign "__romPos" 4096; SAlign "." 4096; SAlign "__romPos" 16; SAlign "." 16].
+Proof. eexists. eexists. split; [vm_compute; reflexivity | vm_compute; reflexivity]. Qed.
+
+Print Assumptions C09_group_start.
+Print Assumptions C09_group_end.
+Print Assumptions C09_pow2_compatible.
+Print Assumptions C09_single_mode_absolute.
+Print Assumptions C09_single_mode_absolute_end.
+Print Assumptions C09_segment_rom_vram_start.
+Print Assumptions C09_segment_rom_vram_end.
+Print Assumptions C09_default_vram.
+Print Assumptions C09_subalign_body.
+Print Assumptions C09_subalign.
+Print Assumptions C09_no_spurious_opt.
+Print Assumptions C09_no_spurious_group.
+Print Assumptions C09_no_spurious_group_none.
+Print Assumptions C09_no_spurious_files.
+Print Assumptions C09_no_spurious_part.
+Print Assumptions C09_no_spurious_segment.
